@@ -53,24 +53,38 @@ func c19Content(vid, n int) []byte {
 // persistor decorator: counts how often Store's reader has been asked for more bytes, so the main goroutine
 // can wait until a fed chunk has been consumed AND written (the next Read is entered only afterwards).
 type c19SyncReader struct {
-	r       io.Reader
-	entered int64
+	r        io.Reader
+	entered  int64
+	failAt   int64 // >= 0: Store's reader reports an injected error once >= failAt bytes were consumed (persistor fault)
+	consumed int64
+	failed   atomic.Bool
 }
 
+var c19ErrInjected = errors.New("injected fault")
+
 func (s *c19SyncReader) Read(p []byte) (int, error) {
+	if s.failAt >= 0 && s.consumed >= s.failAt {
+		s.failed.Store(true)
+		atomic.AddInt64(&s.entered, 1)
+		return 0, c19ErrInjected
+	}
 	atomic.AddInt64(&s.entered, 1)
-	return s.r.Read(p)
+	n, err := s.r.Read(p)
+	s.consumed += int64(n)
+	return n, err
 }
 
 type c19SyncPersistor struct {
 	inner   persistor.CachePersistor
 	mu      sync.Mutex
 	readers []*c19SyncReader
+	armFail int64 // >= 0: the next Store fails after that many bytes
 }
 
 func (p *c19SyncPersistor) Store(key string, reader io.Reader) (int64, error) {
-	sr := &c19SyncReader{r: reader}
+	sr := &c19SyncReader{r: reader, failAt: -1}
 	p.mu.Lock()
+	sr.failAt, p.armFail = p.armFail, -1
 	p.readers = append(p.readers, sr)
 	p.mu.Unlock()
 	return p.inner.Store(key, sr)
@@ -78,6 +92,11 @@ func (p *c19SyncPersistor) Store(key string, reader io.Reader) (int64, error) {
 func (p *c19SyncPersistor) Get(key string) (io.ReadCloser, error) { return p.inner.Get(key) }
 func (p *c19SyncPersistor) Remove(key string) error                { return p.inner.Remove(key) }
 func (p *c19SyncPersistor) RemoveAll() error                       { return p.inner.RemoveAll() }
+func (p *c19SyncPersistor) arm(n int64) {
+	p.mu.Lock()
+	p.armFail = n
+	p.mu.Unlock()
+}
 func (p *c19SyncPersistor) count() int {
 	p.mu.Lock()
 	defer p.mu.Unlock()
@@ -138,6 +157,26 @@ type c19Inner struct {
 	mu       sync.Mutex
 	data     map[string][]byte
 	getCalls int
+	// one-shot faults for the next call
+	getErr     bool
+	getFailAt  int // >= 0: the returned reader delivers that many bytes, then a non-EOF error
+	putFail    bool
+	deleteFail bool
+}
+
+// reader that delivers data and then, on the next call, a non-EOF error
+type c19FailingReader struct {
+	data []byte
+	off  int
+}
+
+func (r *c19FailingReader) Read(p []byte) (int, error) {
+	if r.off >= len(r.data) {
+		return 0, c19ErrInjected
+	}
+	n := copy(p, r.data[r.off:])
+	r.off += n
+	return n, nil
 }
 
 func (s *c19Inner) Start(ctx context.Context) error { return nil }
@@ -146,6 +185,10 @@ func (s *c19Inner) PutPart(ctx context.Context, tx database.Tx, id partstore.Par
 	b, err := io.ReadAll(r)
 	if err != nil {
 		return err
+	}
+	if s.putFail {
+		s.putFail = false
+		return c19ErrInjected
 	}
 	s.mu.Lock()
 	s.data[id.String()] = b
@@ -156,9 +199,19 @@ func (s *c19Inner) GetPart(ctx context.Context, tx database.Tx, id partstore.Par
 	s.mu.Lock()
 	defer s.mu.Unlock()
 	s.getCalls++
+	if s.getErr {
+		s.getErr = false
+		return nil, c19ErrInjected
+	}
 	b, ok := s.data[id.String()]
 	if !ok {
 		return nil, partstore.ErrPartNotFound
+	}
+	if k := s.getFailAt; k >= 0 {
+		s.getFailAt = -1
+		if k < len(b) {
+			return io.NopCloser(&c19FailingReader{data: b[:k]}), nil
+		}
 	}
 	return io.NopCloser(bytes.NewReader(b)), nil
 }
@@ -168,6 +221,10 @@ func (s *c19Inner) GetPartIds(ctx context.Context, tx database.Tx) ([]partstore.
 func (s *c19Inner) DeletePart(ctx context.Context, tx database.Tx, id partstore.PartId) error {
 	s.mu.Lock()
 	defer s.mu.Unlock()
+	if s.deleteFail {
+		s.deleteFail = false
+		return c19ErrInjected
+	}
 	if _, ok := s.data[id.String()]; !ok {
 		return partstore.ErrPartNotFound
 	}
@@ -250,6 +307,43 @@ func (e *c19Env) waitStore(idx int, done chan error) (*c19SyncReader, error, boo
 		}
 		time.Sleep(5 * time.Microsecond)
 	}
+}
+
+// runs a read on a handle in its own goroutine: a read that never returns is an observable outcome (HANG).
+// It is declared hung when the fill's Store has already failed (so nobody will ever drain the pipe) and the read
+// has not returned for 300ms; any other read gets 20s before the harness gives up.
+func (e *c19Env) readMaybeHang(h *c19Handle, f func() ([]byte, error)) (data []byte, err error, hung bool) {
+	type res struct {
+		b   []byte
+		err error
+	}
+	ch := make(chan res, 1)
+	go func() {
+		b, err := f()
+		ch <- res{b, err}
+	}()
+	start := time.Now()
+	for {
+		select {
+		case r := <-ch:
+			return r.b, r.err, false
+		case <-time.After(20 * time.Millisecond):
+		}
+		if h.sr != nil && h.sr.failed.Load() && time.Since(start) > 300*time.Millisecond {
+			return nil, nil, true
+		}
+		if time.Since(start) > 20*time.Second {
+			panic("harness: a read did not return within 20s")
+		}
+	}
+}
+
+func c19ValTok(b []byte, err error) string {
+	s := "V" + tokBytes(string(b))
+	if errors.Is(err, c19ErrInjected) {
+		s += "!"
+	}
+	return s
 }
 
 func (e *c19Env) setFail(msg string) {
@@ -463,19 +557,32 @@ func (e *c19Env) op(f []string) string {
 			return "bad"
 		}
 		n := c19Atoi(f[2])
-		buf := make([]byte, n)
-		m, _ := io.ReadFull(h.rc, buf)
-		h.got = append(h.got, buf[:m]...)
-		e.syncStream(h, m)
+		b, rerr, hung := e.readMaybeHang(h, func() ([]byte, error) {
+			buf := make([]byte, n)
+			m, err := io.ReadFull(h.rc, buf)
+			return buf[:m], err
+		})
+		if hung {
+			delete(e.handles, c19Atoi(f[1]))
+			e.setFail("a read on the part reader never returned (the cache fill had failed in the persistor)")
+			return "HANG"
+		}
+		h.got = append(h.got, b...)
+		e.syncStream(h, len(b))
 		e.judge(h, false)
-		return "V" + tokBytes(string(buf[:m]))
+		return c19ValTok(b, rerr)
 	case "F":
 		hid := c19Atoi(f[1])
 		h, ok := e.handles[hid]
 		if !ok {
 			return "bad"
 		}
-		b, _ := io.ReadAll(h.rc)
+		b, rerr, hung := e.readMaybeHang(h, func() ([]byte, error) { return io.ReadAll(h.rc) })
+		if hung {
+			delete(e.handles, hid)
+			e.setFail("a read on the part reader never returned (the cache fill had failed in the persistor)")
+			return "HANG"
+		}
 		h.got = append(h.got, b...)
 		if isStream, active := partcache.VerifStreamState(h.rc); isStream && !active {
 			partcache.VerifWaitFill(h.rc)
@@ -484,8 +591,9 @@ func (e *c19Env) op(f []string) string {
 		h.rc.Close()
 		delete(e.handles, hid)
 		e.guard.check()
-		e.judge(h, true)
-		return "V" + tokBytes(string(b))
+		// a read that reported the injected error may be short; one that reported none must be complete
+		e.judge(h, !errors.Is(rerr, c19ErrInjected))
+		return c19ValTok(b, rerr)
 	case "C":
 		hid := c19Atoi(f[1])
 		h, ok := e.handles[hid]
@@ -496,13 +604,21 @@ func (e *c19Env) op(f []string) string {
 		delete(e.handles, hid)
 		e.guard.check()
 		return "ok"
-	case "P":
+	case "P", "Pf", "Ps":
 		id := f[1]
 		v := c19Content(c19Atoi(f[2]), c19Atoi(f[3]))
+		if f[0] == "Pf" {
+			e.inner.putFail = true
+		}
+		if f[0] == "Ps" {
+			e.sp.arm(int64(c19Atoi(f[4])))
+		}
 		err := e.ps.PutPart(ctx, nil, c19PartId(id), bytes.NewReader(v))
+		e.inner.putFail = false
+		e.sp.arm(-1)
 		e.guard.check()
 		if err != nil {
-			return "err"
+			return "err" // the put did not happen: the oracle's value stays
 		}
 		e.newValue(id, v)
 		return "ok"
@@ -516,9 +632,11 @@ func (e *c19Env) op(f []string) string {
 		e.inner.PutPart(ctx, nil, c19PartId(id), bytes.NewReader(v))
 		e.newValue(id, v)
 		return "ok"
-	case "D":
+	case "D", "Df":
 		id := f[1]
+		e.inner.deleteFail = f[0] == "Df"
 		err := e.ps.DeletePart(ctx, nil, c19PartId(id))
+		e.inner.deleteFail = false
 		e.guard.check()
 		if err == partstore.ErrPartNotFound {
 			if _, ok := e.cur[id]; ok {
@@ -531,18 +649,44 @@ func (e *c19Env) op(f []string) string {
 		}
 		delete(e.cur, id)
 		return "ok"
-	case "Q", "T":
-		hid, id := 99, f[1]
-		if f[0] == "Q" {
+	case "Q", "T", "Tr", "Ts", "Te", "Tc":
+		hid, id, fault := 99, f[1], "n"
+		switch f[0] {
+		case "Q":
 			hid, id = c19Atoi(f[1]), f[2]
 			if _, used := e.handles[hid]; used {
 				return "bad"
 			}
+			if len(f) > 3 {
+				fault = f[3]
+			}
+		case "Tr":
+			fault = "r" + f[2]
+		case "Ts":
+			fault = "s" + f[2]
+		case "Te":
+			fault = "e"
+		}
+		switch fault[0] {
+		case 'r':
+			e.inner.getFailAt = c19Atoi(fault[1:])
+		case 'e':
+			e.inner.getErr = true
+		case 's':
+			e.sp.arm(int64(c19Atoi(fault[1:])))
 		}
 		calls := e.inner.getCalls
 		idx := e.sp.count()
 		rc, err := e.ps.GetPart(ctx, nil, c19PartId(id))
+		e.inner.getFailAt, e.inner.getErr = -1, false
 		e.guard.check()
+		if errors.Is(err, c19ErrInjected) {
+			e.sp.arm(-1)
+			return "err"
+		}
+		if err != nil {
+			e.sp.arm(-1) // no fill was started
+		}
 		if err == partstore.ErrPartNotFound {
 			if _, ok := e.cur[id]; ok {
 				e.setFail("GetPart of an existing part answered not-found")
@@ -557,11 +701,22 @@ func (e *c19Env) op(f []string) string {
 		if isStream, _ := partcache.VerifStreamState(rc); isStream {
 			kind = "os"
 			h.sr, _, _ = e.waitStore(idx, nil)
+			if h.sr.failed.Load() { // the persistor failed on its first Read: the fill goroutine ends by itself
+				partcache.VerifWaitFillDone(rc)
+			}
 		} else if e.inner.getCalls > calls {
 			kind = "oi"
 		}
-		if f[0] == "Q" {
+		e.sp.arm(-1)
+		switch f[0] {
+		case "Q":
 			return kind
+		case "Tc":
+			out := e.op([]string{"R", "99", f[2]})
+			if out != "HANG" {
+				e.op([]string{"C", "99"})
+			}
+			return out
 		}
 		return e.op([]string{"F", "99"})
 	}
@@ -579,6 +734,9 @@ func (e *c19Env) syncStream(h *c19Handle, m int) {
 		if m > 0 && h.sr != nil {
 			h.fed++
 			e.waitEntered(h.sr, h.fed+1, nil)
+			if h.sr.failed.Load() { // the persistor failed after this chunk: wait for the fill goroutine to end
+				partcache.VerifWaitFillDone(h.rc)
+			}
 		}
 	} else {
 		partcache.VerifWaitFill(h.rc)
@@ -622,13 +780,13 @@ func (c19) Run(in string, scratch string) (res Result) {
 	if err != nil {
 		panic(err)
 	}
-	sp := &c19SyncPersistor{inner: p}
+	sp := &c19SyncPersistor{inner: p, armFail: -1}
 	gc, err := cachepkg.NewGenericCache(sp, c19BuildPolicy(f[1]))
 	if err != nil {
 		panic(err)
 	}
 	guard := &c19GuardCache{inner: gc}
-	inner := &c19Inner{data: map[string][]byte{}}
+	inner := &c19Inner{data: map[string][]byte{}, getFailAt: -1}
 	ps, err := partcache.New(guard, inner, partcache.Options{MaxPartSizeBytes: int64(c19Atoi(f[2]))})
 	if err != nil {
 		panic(err)
